@@ -1,5 +1,246 @@
-/- Line-protocol handler for C08 (stub until the model exists). -/
-import NoulithModel.Common
+/- Line-protocol handler for C08 (also the value parser / printer reused by the C09 driver).
+
+Values cross the protocol in the canonical text of `vharness::canon`: ints in decimal, rationals
+`n/d`, floats `f:<16 hex digits of the IEEE bits>` | `f:nan`, complex `c:<re>:<im>`, strings
+`s:<hex utf8>`, bytes `b:<hex>`, lists `[a,b]`, vectors `v[a,b]`, dicts `{k:v,…}` (`|d=<default>`),
+`null`, `<func>`.  The float decoder (sign, 11-bit exponent, 52-bit mantissa, subnormals) turns the
+bits into the exact value `m·2^e` the model works with.
+
+Requests:
+  op <operator> <a> <b>      the six comparison operators, `<=>`, `>=<`
+  ext min|max <list>         `min`/`max` over the elements
+  sort <seq>                 `sort`
+  nmin|nmax <a> <b>          `NNum::min` / `NNum::max` (Rust API)
+  teq <a> <b>                `NNum::total_eq`
+Response: `<impl>\t<spec>\t<diagnostics>`. -/
+import NoulithModel.Spec.OrdSpec
+
 namespace Noulith.DriverC08
-def handle (_args : List String) : String := "bad-op"
+open Noulith
+
+/-! ### IEEE-754 binary64 bits ↔ exact value -/
+def decodeF64 (bits : Nat) : F64 :=
+  let sign : Nat := bits / 2 ^ 63 % 2
+  let ex : Nat := bits / 2 ^ 52 % 2048
+  let mant : Nat := bits % 2 ^ 52
+  if ex = 2047 then (if mant = 0 then .inf (sign = 1) else .nan)
+  else if ex = 0 then
+    if mant = 0 then (if sign = 1 then .nzero else .fin 0 0)
+    else .fin (if sign = 1 then -(Int.ofNat mant) else Int.ofNat mant) (-1074)
+  else
+    let m : Int := Int.ofNat (2 ^ 52 + mant)
+    .fin (if sign = 1 then -m else m) (Int.ofNat ex - 1075)
+
+def bitLen (a : Nat) : Nat := if a = 0 then 0 else Nat.log2 a + 1
+
+/-- inverse of `decodeF64` on representable values -/
+def encodeF64 : F64 → Option Nat
+  | .nan => none
+  | .inf neg => some ((if neg then 2 ^ 63 else 0) + 2047 * 2 ^ 52)
+  | .nzero => some (2 ^ 63)
+  | .fin m e =>
+    if m = 0 then some 0
+    else
+      let a := m.natAbs
+      let s := if m < 0 then 2 ^ 63 else 0
+      let n := bitLen a
+      let E : Int := e + n - 1
+      if E ≥ -1022 then
+        let sig := if n ≤ 53 then a * 2 ^ (53 - n) else a / 2 ^ (n - 53)
+        some (s + (E + 1023).toNat * 2 ^ 52 + (sig - 2 ^ 52))
+      else
+        some (s + a * 2 ^ (e + 1074).toNat)
+
+def hex16 (n : Nat) : String :=
+  String.ofList ((List.range 16).map fun i => hexDigitChar (n / 16 ^ (15 - i) % 16))
+
+def renderF64Body (f : F64) : String :=
+  match encodeF64 f with
+  | none => "nan"
+  | some b => hex16 b
+
+/-! ### UTF-8 decoding of protocol strings -/
+partial def utf8Decode : List Nat → List Nat
+  | [] => []
+  | b :: rest =>
+    if b < 0x80 then b :: utf8Decode rest
+    else if b < 0xE0 then
+      match rest with
+      | c1 :: r => ((b - 0xC0) * 64 + (c1 - 0x80)) :: utf8Decode r
+      | _ => []
+    else if b < 0xF0 then
+      match rest with
+      | c1 :: c2 :: r => ((b - 0xE0) * 4096 + (c1 - 0x80) * 64 + (c2 - 0x80)) :: utf8Decode r
+      | _ => []
+    else
+      match rest with
+      | c1 :: c2 :: c3 :: r =>
+        ((b - 0xF0) * 262144 + (c1 - 0x80) * 4096 + (c2 - 0x80) * 64 + (c3 - 0x80)) :: utf8Decode r
+      | _ => []
+
+/-! ### parser -/
+def isHex (c : Char) : Bool := (hexDigitVal c).isSome
+
+def takeWhileC (p : Char → Bool) : List Char → List Char × List Char
+  | [] => ([], [])
+  | c :: cs => if p c then let (a, b) := takeWhileC p cs; (c :: a, b) else ([], c :: cs)
+
+def hexVal (cs : List Char) : Nat := cs.foldl (fun a c => a * 16 + (hexDigitVal c).getD 0) 0
+
+def parseF64Body (cs : List Char) : Option (F64 × List Char) :=
+  match cs with
+  | 'n' :: 'a' :: 'n' :: rest => some (.nan, rest)
+  | _ =>
+    let (h, rest) := takeWhileC isHex cs
+    if h.length = 16 then some (decodeF64 (hexVal h), rest) else none
+
+def parseIntC (cs : List Char) : Option (Int × List Char) :=
+  let (neg, cs) := match cs with
+    | '-' :: r => (true, r)
+    | _ => (false, cs)
+  let (d, rest) := takeWhileC Char.isDigit cs
+  if d.isEmpty then none
+  else
+    let n : Nat := d.foldl (fun a c => a * 10 + (c.toNat - '0'.toNat)) 0
+    some (if neg then -(n : Int) else n, rest)
+
+/-- ints arrive without a representation: values in the i64 range are `Small`, others `Big`
+(what the interpreter produces for literals and normalised results) -/
+def mkInt (v : Int) : NInt := if inI64 v then .small v else .big v
+
+def parseNumC (cs : List Char) : Option (NNum × List Char) :=
+  match cs with
+  | 'f' :: ':' :: rest => (parseF64Body rest).map fun (f, r) => (.float f, r)
+  | 'c' :: ':' :: rest =>
+    match parseF64Body rest with
+    | some (re, ':' :: r1) => (parseF64Body r1).map fun (im, r) => (.complex re im, r)
+    | _ => none
+  | _ =>
+    match parseIntC cs with
+    | some (n, '/' :: r1) =>
+      match parseIntC r1 with
+      | some (d, r) => some (.rat (mkRat n d.toNat), r)
+      | none => none
+    | some (n, r) => some (.int (mkInt n), r)
+    | none => none
+
+mutual
+partial def parseValC (cs : List Char) : Option (Val × List Char) :=
+  match cs with
+  | 'n' :: 'u' :: 'l' :: 'l' :: rest => some (.null, rest)
+  | '<' :: 'f' :: 'u' :: 'n' :: 'c' :: '>' :: rest => some (.func 0, rest)
+  | 's' :: ':' :: rest =>
+    let (h, r) := takeWhileC isHex rest
+    (unhexChars h).map fun bs => (.str (utf8Decode bs), r)
+  | 'b' :: ':' :: rest =>
+    let (h, r) := takeWhileC isHex rest
+    (unhexChars h).map fun bs => (.bytes bs, r)
+  | '[' :: rest => (parseSeqC rest ']').map fun (xs, r) => (.list xs, r)
+  | 'v' :: '[' :: rest => parseVecC rest
+  | '{' :: rest =>
+    match parseEntriesC rest with
+    | some (kvs, '|' :: 'd' :: '=' :: r) => (parseValC r).map fun (d, r2) => (.dict kvs (some d), r2)
+    | some (kvs, r) => some (.dict kvs none, r)
+    | none => none
+  | _ => (parseNumC cs).map fun (n, r) => (.num n, r)
+partial def parseSeqC (cs : List Char) (close : Char) : Option (List Val × List Char) :=
+  match cs with
+  | c :: rest =>
+    if c = close then some ([], rest)
+    else
+      let cs' := if c = ',' then rest else cs
+      match parseValC cs' with
+      | some (v, r) => (parseSeqC r close).map fun (vs, r2) => (v :: vs, r2)
+      | none => none
+  | [] => none
+partial def parseVecC (cs : List Char) : Option (Val × List Char) :=
+  match parseSeqC cs ']' with
+  | some (xs, r) =>
+    let ns := xs.filterMap fun v => match v with
+      | .num n => some n
+      | _ => none
+    if ns.length = xs.length then some (.vec ns, r) else none
+  | none => none
+partial def parseEntriesC (cs : List Char) : Option (List (Val × Val) × List Char) :=
+  match cs with
+  | '}' :: rest => some ([], rest)
+  | c :: rest =>
+    let cs' := if c = ',' then rest else cs
+    match parseValC cs' with
+    | some (k, ':' :: r) =>
+      match parseValC r with
+      | some (v, r2) => (parseEntriesC r2).map fun (kvs, r3) => ((k, v) :: kvs, r3)
+      | none => none
+    | _ => none
+  | [] => none
+end
+
+def parseVal (s : String) : Option Val :=
+  match parseValC s.toList with
+  | some (v, []) => some v
+  | _ => none
+
+/-! ### printer -/
+def renderNum : NNum → String
+  | .int a => toString a.val
+  | .rat q => s!"{q.num}/{q.den}"
+  | .float f => "f:" ++ renderF64Body f
+  | .complex re im => "c:" ++ renderF64Body re ++ ":" ++ renderF64Body im
+
+def sortStrings (xs : List String) : List String := xs.mergeSort (fun a b => decide (a ≤ b))
+
+mutual
+partial def renderVal : Val → String
+  | .null => "null"
+  | .num n => renderNum n
+  | .str cs => "s:" ++ hexOfBytes (utf8 cs)
+  | .bytes bs => "b:" ++ hexOfBytes bs
+  | .list xs => "[" ++ joinWith "," (xs.map renderVal) ++ "]"
+  | .vec xs => "v[" ++ joinWith "," (xs.map renderNum) ++ "]"
+  | .dict kvs d =>
+    let items := sortPairs (kvs.map fun (k, v) => (renderVal k, renderVal v))
+    let body := "{" ++ joinWith "," (items.map fun (k, v) => k ++ ":" ++ v) ++ "}"
+    match d with
+    | none => body
+    | some dv => body ++ "|d=" ++ renderVal dv
+  | .func _ => "<func>"
+partial def sortPairs (xs : List (String × String)) : List (String × String) :=
+  xs.mergeSort (fun a b => decide (a.1 < b.1) || (a.1 == b.1 && decide (a.2 ≤ b.2)))
+end
+
+def renderOut (r : Out Val) : String := r.render renderVal
+
+def handle (args : List String) : String :=
+  match args with
+  | ["op", op, a, b] =>
+    match parseVal a, parseVal b with
+    | some x, some y => renderOut (cmpOp op x y) ++ "\t" ++ renderOut (OrdSpec.cmpOp op x y) ++ "\t-"
+    | _, _ => "bad-op"
+  | ["ext", which, l] =>
+    match parseVal l with
+    | some (.list xs) =>
+      let bias : Ordering := if which == "min" then .lt else .gt
+      renderOut (extremum bias xs) ++ "\t" ++ renderOut (OrdSpec.extremum bias xs) ++ "\t-"
+    | _ => "bad-op"
+  | ["sort", l] =>
+    match parseVal l with
+    | some v => renderOut (sortVal v) ++ "\t" ++ renderOut (OrdSpec.sortVal v) ++ "\t-"
+    | none => "bad-op"
+  | ["nmin", a, b] =>
+    match parseVal a, parseVal b with
+    | some (.num x), some (.num y) =>
+      renderOut (.ok (.num (NNum.min x y))) ++ "\t" ++ renderOut (.ok (.num (OrdSpec.numMin x y))) ++ "\t-"
+    | _, _ => "bad-op"
+  | ["nmax", a, b] =>
+    match parseVal a, parseVal b with
+    | some (.num x), some (.num y) =>
+      renderOut (.ok (.num (NNum.max x y))) ++ "\t" ++ renderOut (.ok (.num (OrdSpec.numMax x y))) ++ "\t-"
+    | _, _ => "bad-op"
+  | ["teq", a, b] =>
+    match parseVal a, parseVal b with
+    | some (.num x), some (.num y) =>
+      renderOut (.ok (ofBool (NNum.totalEq x y))) ++ "\t" ++ renderOut (.ok (ofBool (OrdSpec.numKeyEq x y))) ++ "\t-"
+    | _, _ => "bad-op"
+  | _ => "bad-op"
+
 end Noulith.DriverC08
